@@ -65,11 +65,23 @@ def run(ctx):
             reg = call_blocks(b, r"indexmap::map::IndexMap(<[^>]*>)?::entry$|IndexMap(<[^>]*>)?::insert$")
             short = bp.rsplit("::", 1)[1]
             cmpg = []
-            for bb, tru, fal, si in b.call_bool_guards(r"PartialOrd(<[^>]*>)?(>)?::gt$"):
-                c = [a for a in si["atoms"] if a.kind == "call" and a.what.endswith("::gt")]
+            for bb, tru, fal, si in b.call_bool_guards(r"PartialOrd(<[^>]*>)?(>)?::(gt|lt|ge|le)$"):
+                c = [a for a in si["atoms"] if a.kind == "call" and re.search(r"::(gt|lt|ge|le)$", a.what)]
                 t = b.term(c[0].bb) if c else None
-                if t and origin_names(b, t["args"][0]) == {"param:1"} and any(x.endswith("LockedFungibleResource::amount") for x in origin_names(b, t["args"][1])):
+                if not t:
+                    continue
+                o0, o1 = origin_names(b, t["args"][0]), origin_names(b, t["args"][1])
+                is_max = lambda o: any(x.endswith("LockedFungibleResource::amount") for x in o)
+                op = c[0].what.rsplit("::", 1)[1]
+                # `amount > max` / `max < amount` (or the non-strict forms): the edge on which the request exceeds the locked maximum
+                if o0 == {"param:1"} and is_max(o1) and op in ("gt", "ge"):
                     cmpg.append((bb, tru, fal))
+                elif is_max(o0) and o1 == {"param:1"} and op in ("lt", "le"):
+                    cmpg.append((bb, tru, fal))
+                elif o0 == {"param:1"} and is_max(o1) and op in ("lt", "le"):
+                    cmpg.append((bb, fal, tru))
+                elif is_max(o0) and o1 == {"param:1"} and op in ("gt", "ge"):
+                    cmpg.append((bb, fal, tru))
             ok = len(cmpg) == 1 and bool(reg)
             ctx.ob(f"{short}::lock_amount|compares-with-locked-max", ok, f"{len(cmpg)} test(s) `amount > locked.amount()`, {len(reg)} lock registration site(s)", b.loc())
             if ok:
